@@ -458,7 +458,7 @@ class ObjectIdentifierPayloadDecoder(AbstractSimplePayloadDecoder):
                     subId = (subId << 7) + (nextSubId & 0x7F)
                     if index >= substrateLen:
                         raise error.SubstrateUnderrunError(
-                            'Short substrate for sub-OID past %s' % (oid,)
+                            'Short substrate for sub-OID past arc %d' % (len(oid),)
                         )
                     nextSubId = chunk[index]
                     index += 1
